@@ -306,7 +306,7 @@ func (it *Interp) observe(tag string, v Value) {
 		it.emit("(define-fun " + name + " () " + srt + " " + x.T + ")")
 		it.observed = append(it.observed, obsTerm{tag, name})
 	case IntV:
-		it.observe(tag, x.V)
+		it.observe(tag, it.intVal(x))
 	case DecV:
 		it.observe(tag, x.V)
 	case TimeV:
